@@ -1,70 +1,11 @@
 From Coq Require Import Reals List ZArith Lra Lia.
-From TFV Require Import Base.RBase Rot.Wigner.
+From TFV Require Import Base.RBase Rot.Wigner Rot.Wigner_unit.
 Import ListNotations.
 Open Scope R_scope.
 
-Ltac rcompute := cbv -[Rplus Rminus Rmult Rdiv Ropp Rinv Rabs Rle Rlt IZR pow sqrt cos sin atan exp ln PI].
-
-(* Gram sums of the rational parts *)
-Definition gram (j2 m2 k2 : Z) (c s : R) : R :=
-  fold_right (fun n2 acc => IZR (a_of j2 n2) * dtilde j2 m2 n2 c s * dtilde j2 k2 n2 c s + acc) 0 (m_range j2).
-Definition gram_col (j2 m2 k2 : Z) (c s : R) : R :=
-  fold_right (fun n2 acc => IZR (a_of j2 n2) * dtilde j2 n2 m2 c s * dtilde j2 n2 k2 c s + acc) 0 (m_range j2).
-Definition delta (m k : Z) : R := if Z.eqb m k then 1 else 0.
-
-Definition all_jmk : list (Z * Z * Z) :=
-  flat_map (fun j2 => flat_map (fun m => map (fun k => (j2, m, k)) (m_range j2)) (m_range j2))
-           (map Z.of_nat (seq 0 9)).
-
-Definition unit_stmt (t : Z * Z * Z) : Prop :=
-  forall c s, gram (fst (fst t)) (snd (fst t)) (snd t) c s * IZR (a_of (fst (fst t)) (snd (fst t)))
-              = delta (snd (fst t)) (snd t) * (c * c + s * s) ^ Z.to_nat (fst (fst t)).
-Definition unit_col_stmt (t : Z * Z * Z) : Prop :=
-  forall c s, gram_col (fst (fst t)) (snd (fst t)) (snd t) c s * IZR (a_of (fst (fst t)) (snd (fst t)))
-              = delta (snd (fst t)) (snd t) * (c * c + s * s) ^ Z.to_nat (fst (fst t)).
-
-(* 285 homogeneous polynomial identities, each closed by field *)
-Lemma unit_all : Forall unit_stmt all_jmk.
-Proof.
-  let l := eval vm_compute in all_jmk in change (Forall unit_stmt l).
-  repeat (apply Forall_cons; [unfold unit_stmt; intros c s; rcompute; field | ]).
-  apply Forall_nil.
-Qed.
-
-Lemma unit_col_all : Forall unit_col_stmt all_jmk.
-Proof.
-  let l := eval vm_compute in all_jmk in change (Forall unit_col_stmt l).
-  repeat (apply Forall_cons; [unfold unit_col_stmt; intros c s; rcompute; field | ]).
-  apply Forall_nil.
-Qed.
-
-Lemma in_all_jmk j2 m2 k2 :
-  (0 <= j2 <= 8)%Z -> In m2 (m_range j2) -> In k2 (m_range j2) -> In (j2, m2, k2) all_jmk.
-Proof.
-  intros Hj Hm Hk. unfold all_jmk. apply in_flat_map. exists j2. split.
-  - apply in_map_iff. exists (Z.to_nat j2). split; [lia|]. apply in_seq. lia.
-  - apply in_flat_map. exists m2. split; [exact Hm|]. apply in_map_iff. exists k2. split; [reflexivity|exact Hk].
-Qed.
-
-Lemma gram_identity j2 m2 k2 c s :
-  (0 <= j2 <= 8)%Z -> In m2 (m_range j2) -> In k2 (m_range j2) ->
-  gram j2 m2 k2 c s * IZR (a_of j2 m2) = delta m2 k2 * (c * c + s * s) ^ Z.to_nat j2.
-Proof.
-  intros Hj Hm Hk. pose proof unit_all as U. rewrite Forall_forall in U.
-  exact (U (j2, m2, k2) (in_all_jmk j2 m2 k2 Hj Hm Hk) c s).
-Qed.
-
-Lemma gram_col_identity j2 m2 k2 c s :
-  (0 <= j2 <= 8)%Z -> In m2 (m_range j2) -> In k2 (m_range j2) ->
-  gram_col j2 m2 k2 c s * IZR (a_of j2 m2) = delta m2 k2 * (c * c + s * s) ^ Z.to_nat j2.
-Proof.
-  intros Hj Hm Hk. pose proof unit_col_all as U. rewrite Forall_forall in U.
-  exact (U (j2, m2, k2) (in_all_jmk j2 m2 k2 Hj Hm Hk) c s).
-Qed.
-
 (* positivity of the factorial weights *)
 Lemma zfact_pos n : (0 < zfact n)%Z.
-Proof. induction n as [|n IH]; simpl zfact; [lia|]. apply Z.mul_pos_pos; [lia|exact IH]. Qed.
+Proof. induction n as [|n IH]; [reflexivity|]. change (zfact (S n)) with (Z.of_nat (S n) * zfact n)%Z. apply Z.mul_pos_pos; [lia|exact IH]. Qed.
 Lemma a_of_pos j2 m2 : (0 < a_of j2 m2)%Z.
 Proof. unfold a_of, fh. apply Z.mul_pos_pos; apply zfact_pos. Qed.
 Lemma a_of_Rpos j2 m2 : 0 < IZR (a_of j2 m2).
